@@ -138,6 +138,9 @@ def run(chk):
             conn = Connection('localhost', 25565, username='user', allowed_versions=sc.get('allowed', [sc['pv']]),
                               initial_version=sc.get('initial'), handle_exception=lambda e, i: excs.append(e))
             conn.register_packet_listener(lambda p: delivered.append((net.nconn - 1, p.id)), Packet, early=True)
+            if k % 4 == 1:
+                # the object has been through a disconnect() before this conversation (as after any earlier session or query)
+                conn.disconnect(immediate=bool(k % 8 == 1))
             import builtins
             rp = builtins.print
             builtins.print = lambda *a, **k: None
